@@ -4,8 +4,11 @@ import (
 	"bytes"
 	"encoding/json"
 	"fmt"
+	"go/parser"
+	"go/token"
 	"os"
 	"sort"
+	"strconv"
 	"strings"
 	"time"
 	"unicode"
@@ -342,7 +345,10 @@ func judgeSyntax(cs *synCase, openF2 bool) (what string, excluded bool) {
 		if len(problems) > 0 {
 			return "tree built from a valid grammar is inconsistent: " + strings.Join(problems, "; "), false
 		}
-		return compareDenotation(cs.G, got, cs.Inputs), false
+		if what := compareDenotation(cs.G, got, cs.Inputs); what != "" {
+			return what, false
+		}
+		return importsAfterGeneration(cs, res.Tree), false
 	}
 	if res.Err != nil {
 		return "", false // rejected cleanly
@@ -458,7 +464,7 @@ func c10Gen(t *rapid.T) synCase {
 	if rapid.Bool().Draw(t, "imports?") {
 		n := rapid.IntRange(1, 3).Draw(t, "nimp")
 		for i := 0; i < n; i++ {
-			im := gram.Import{Path: rapid.SampledFrom([]string{"strings", "math/big", "github.com/a-b/c_d/v2", "x.y/z"}).Draw(t, "ipath")}
+			im := gram.Import{Path: rapid.SampledFrom([]string{"strings", "math/big", "github.com/a-b/c_d/v2", "x.y/z", "fmt", "strconv", "os", "slices"}).Draw(t, "ipath")}
 			if rapid.Bool().Draw(t, "alias?") {
 				im.Alias = rapid.SampledFrom([]string{"m", "_x", "Big1"}).Draw(t, "ialias")
 			}
@@ -748,4 +754,49 @@ func c10NativeFuzz(c *drv.Ctx) error {
 		c.AddViolation(drv.Violation{Property: "C10", Kind: "syntax-text", What: what + "\n--- text (found by go test -fuzz) ---\n" + text, Case: cs})
 	}
 	return nil
+}
+
+// importsAfterGeneration: "imports keep their path and alias" must still be true of the
+// emitted file, where the user's imports are merged with the runtime's own.
+func importsAfterGeneration(cs *synCase, t *tree.Tree) string {
+	if len(cs.G.Imports) == 0 {
+		return ""
+	}
+	var buf bytes.Buffer
+	panicked := ""
+	var err error
+	func() {
+		defer func() {
+			if r := recover(); r != nil {
+				panicked = fmt.Sprint(r)
+			}
+		}()
+		t.Strict = true
+		err = t.Compile("g.peg.go", []string{"peg"}, &buf)
+	}()
+	if panicked != "" {
+		return "generation panics: " + panicked
+	}
+	if err != nil {
+		return "" // e.g. action code that is not Go: outside this property
+	}
+	f, perr := parser.ParseFile(token.NewFileSet(), "g.peg.go", buf.Bytes(), parser.ImportsOnly)
+	if perr != nil {
+		return ""
+	}
+	have := map[string]bool{}
+	for _, sp := range f.Imports {
+		p, _ := strconv.Unquote(sp.Path.Value)
+		a := ""
+		if sp.Name != nil {
+			a = sp.Name.Name
+		}
+		have[p+"="+a] = true
+	}
+	for _, im := range cs.G.Imports {
+		if !have[im.Path+"="+im.Alias] {
+			return fmt.Sprintf("import %s %q of the grammar is missing from the generated file, or lost its alias (file imports %v)", im.Alias, im.Path, sortedKeys(have))
+		}
+	}
+	return ""
 }
